@@ -24,7 +24,7 @@ ASSUMPTIONS = [
     "a 'probe' of an entry point is a maximal run of identical frames with no delivery in between",
 ]
 MUST = ["two_piece_answer_in_time", "lone_fragment_every_attempt", "slow_answer_in_time", "full_timeout_after_corrupt_answer", "final_silent_exact", "prefix_success_after_drops", "prefix_exhausted", "prefix_rejected", "prefix_send_error",
-        "prefix_recv_error", "loop_change", "connect_probe", "discover_probe", "search_probe", "detected_family_probe",
+        "prefix_recv_error", "loop_change", "connect_probe", "discover_probe", "search_probe", "search_answered", "detected_family_probe",
         "connected_then_silent"]
 EXHAUSTIVE = {"quick": True, "thorough": True}
 
@@ -214,6 +214,18 @@ class DiscoveryThenSilent(sims.Aa55Sim):
         self.loop.ev("peer", self.owner, n, "drop")
 
 
+class Answering(ScriptedPeer):
+    """answers every datagram with a fixed payload after `delay`"""
+
+    def __init__(self, owner, answer, delay=0.0):
+        super().__init__(owner, "rtu", [], 1)
+        self.answer, self.delay_ = answer, delay
+
+    def on_request(self, s, kind, frame, n):
+        self.loop.ev("peer", self.owner, n, "answer")
+        self.send(s, self.answer, self.delay_, n)
+
+
 def check_probes(kind, pr, timeout, retries, expect_n, tag, part, counter):
     out = []
     if expect_n is not None and len(pr) != expect_n:
@@ -251,7 +263,8 @@ def entry_case(case, part):
     elif kind == "discover_silent":
         port = case["port"]
         peer = Silent("inv0")
-        run = engine.run_custom({("inv0", port): peer}, lambda loop: g.discover("inv0", port, t, r))
+        run = engine.run_custom({("inv0", port): peer}, lambda loop: (g.connect("inv0", port, None, 0, t, r) if case.get("via") == "connect"
+                                                                      else g.discover("inv0", port, t, r)))
         if run.stop:
             vs.append((f"C05/entry/{kind}/hang", f"{tag}: {run.stop}"))
         else:
@@ -270,6 +283,21 @@ def entry_case(case, part):
                 vs.append((f"C05/entry/{kind}/end-time", f"search_inverters failed at t={run.t_end}, expected 1 s"))
             if pr and pr[0][0] != b"WIFIKIT-214028-READ":
                 vs.append((f"C05/entry/{kind}/frame", f"unexpected broadcast payload {pr[0][0]!r}"))
+    elif kind == "search_answered":
+        answer = b"192.168.1.14,289C6E05AABB,Solar-WiFi222W0782"
+        peer = Answering("bcast", answer, case.get("delay", 0.0))
+        res = {}
+
+        async def flow(loop):
+            res["value"] = await g.search_inverters()
+        run = engine.run_custom({("255.255.255.255", 48899): peer}, flow)
+        if run.stop or run.error is not None:
+            vs.append((f"C05/entry/{kind}/outcome", f"{tag}: {run.stop or repr(run.error)}"))
+        else:
+            pr = engine.probes(run.events)
+            vs += check_probes(kind, pr, 1, 0, 1, tag, part, "search_answered")
+            if res.get("value") != answer or len(pr[0][1]) != 1:
+                vs.append((f"C05/entry/{kind}/outcome", f"{tag}: returned {res.get('value')!r} after {len(pr[0][1])} transmissions"))
     elif kind == "discover_detected":
         serial = {"ET": "9010KETU000W0000", "DT": "9006KDTU000W0000", "ES": "95048ESU000W0000"}[case["family"]]
         peer = DiscoveryThenSilent("inv0", info=sims.es_device_info(serial=serial))
@@ -289,6 +317,7 @@ def entry_case(case, part):
 
         async def flow(loop):
             inv = await (g.connect("inv0", port, family=fam, timeout=t, retries=r) if case["via"] == "connect"
+                         else g.connect("inv0", port, timeout=t, retries=r) if case["via"] == "connect_discover"      # (no family: connect() discovers)
                          else g.discover("inv0", port, t, r))
             state["n0"] = len([e for e in loop.events if e[1] == "tx"])
             peer.silent = True
@@ -364,11 +393,12 @@ def run_shard(spec):
                         entry_case({"kind": "connect_silent", "family": fam, "port": port, "timeout": t, "retries": r}, part)
                 for port in (8899, 502):
                     entry_case({"kind": "discover_silent", "port": port, "timeout": t, "retries": r}, part)
+                    entry_case({"kind": "discover_silent", "port": port, "timeout": t, "retries": r, "via": "connect"}, part)
                 for fam in ("ET", "DT", "ES"):
                     entry_case({"kind": "discover_detected", "family": fam, "timeout": t, "retries": r}, part)
-                    for via in ("connect", "discover"):
+                    for via in ("connect", "discover", "connect_discover"):
                         for port in ((8899, 502) if fam != "ES" else (8899,)):
-                            if via == "discover" and port == 502 and fam == "ES":
+                            if via != "connect" and port == 502 and fam == "ES":
                                 continue
                             entry_case({"kind": "connected_then_silent", "family": fam, "port": port, "via": via,
                                         "timeout": t, "retries": r}, part)
@@ -376,6 +406,8 @@ def run_shard(spec):
                                 entry_case({"kind": "connected_then_silent", "family": fam, "port": port, "via": via,
                                             "timeout": t, "retries": r, "refuse_probes": True}, part)
         entry_case({"kind": "search", "timeout": 1, "retries": 0}, part)
+        for d in (0.0, 0.4, 0.99):
+            entry_case({"kind": "search_answered", "timeout": 1, "retries": 0, "delay": d}, part)
     return part
 
 
